@@ -24,6 +24,7 @@ type sliceRes struct {
 }
 
 type slicer struct {
+	dataOnly bool // do not add the branch conditions that select between phi inputs
 	p        *Program
 	maxDepth int
 	storeIdx map[*ssa.Function]map[string][]*ssa.Store
@@ -105,6 +106,9 @@ func (s *slicer) walk(v ssa.Value, res *sliceRes, depth int) {
 	case *ssa.Phi:
 		for _, e := range x.Edges {
 			s.walk(e, res, depth)
+		}
+		if s.dataOnly {
+			return
 		}
 		// over-approximate control dependence
 		fn := x.Parent()
